@@ -47,6 +47,7 @@ def run(ctx):
     jvp_wiring(ctx, "O3/T5-custom-jvp-wiring")
     relative_differences(ctx)
     log_taylor(ctx)
+    denman_beavers(ctx)
     ctx.trust("jax.custom_jvp protocol: rule(primals, tangents) -> (primal_out, tangent_out)")
     ctx.assume("eigenvalues of arguments of log/sqrt/power are positive")
 
@@ -283,6 +284,90 @@ def log_taylor(ctx):
                bad_detail="_relative_log_difference_taylor is not the truncated series 2/(a+b) * (1 + f^2/3 + f^4/5 + ...) of (log a - log b)/(a - b)")
 
 
+def denman_beavers(ctx):
+    """Dense square root (LinAlg.sqrtm_dbp, product form of the Denman-Beavers iteration): for a scalar matrix A = a*I everything
+    commutes, so one step of the loop body, interpreted on symbolic 1x1 data, must preserve the invariant M = X^2 / a (M = X A^-1 X)
+    with and without determinantal scaling, and (X, M) = (sqrt a, 1) must be a fixed point: then the limit M -> I gives X^2 = A.
+    The scaling switch must be ON while the relative change is above its threshold and OFF below (accepted idiom of Higham's algorithm)."""
+    rule = "O4/T7-denman-beavers-invariant"
+    import optilint.tensoreval as te
+    from optilint.tensoreval import Interp, Dual, Arr, Env, EvalError, Raised, _A
+    from optilint.expr import simplify
+    LA = "optimism.LinAlg"
+    mod = ctx.need_module(LA)
+    sc = ctx.need(f"{LA}:sqrtm_dbp")
+    wl = [c for c in ast.walk(sc.node) if isinstance(c, ast.Call) and (dotted(c.func) or "").endswith("while_loop") and len(c.args) == 3]
+    if len(wl) != 1 or not isinstance(wl[0].args[1], ast.Name):
+        ctx.undecided(rule, sc, None, construct="loop", detail="while_loop(cond, body, init) not found")
+        return
+    body = [c for c in sc.children if c.kind == "function" and c.name == wl[0].args[1].id]
+    if not body:
+        ctx.undecided(rule, sc, None, construct="loop", detail="loop body not found")
+        return
+    body = body[0]
+    ctx.touch(body)
+    for pol, lab in ((True, "scaled"), (False, "unscaled")):
+        I = Interp(ctx.repo)
+        I.policy = pol
+        I.tolerant = True
+        te.OPAQUE[0] = True
+        try:
+            a = Dual(_A.atom("a"))
+            x = Dual(_A.atom("x"))
+            I.positive.update({"a", "x"})
+            env = Env(sc, I.module_env(mod))
+            env.vars[sc.params()[0]] = Arr([a], (1, 1))
+            for st in sc.node.body:
+                if isinstance(st, (ast.Assign, ast.FunctionDef)):
+                    try:
+                        I.stmt(st, env)
+                    except (EvalError, Raised):
+                        pass
+            X, M = Arr([x], (1, 1)), Arr([x * x / a], (1, 1))
+            out = I.call(env.vars[body.name], [(X, M, Dual(_A.atom("err")), Dual(0), Dual(_A.atom("diff")))], {})
+            X2, M2 = out[0], out[1]
+            res = simplify(_A.norm(X2.data[0].a * X2.data[0].a / a.a - M2.data[0].a))
+            ctx.decide(rule, _A.is_zero(res), body, None, construct=f"invariant-M=X^2/a[{lab}]", detail="one step maps (x, x^2/a) to (x', x'^2/a)",
+                       bad_detail=f"with the scaling {'on' if pol else 'off'} one step of the Denman-Beavers loop maps (X, M = X^2/a) to a pair with "
+                                  f"X'^2/a - M' = {res!r}: M -> I no longer implies X^2 = A")
+            if not pol:
+                s_ = Dual(_A.sqrt(a.a))
+                out = I.call(env.vars[body.name], [(Arr([s_], (1, 1)), Arr([Dual(1)], (1, 1)), Dual(0), Dual(0), Dual(0))], {})
+                okf = _A.equal(out[0].data[0].a, s_.a) and _A.equal(out[1].data[0].a, _A.const(1))
+                ctx.decide(rule, okf, body, None, construct="fixed-point-(sqrt a, 1)", detail="(sqrt a, 1) is mapped to itself",
+                           bad_detail=f"(X, M) = (sqrt a, 1) is mapped to ({out[0].data[0].a!r}, {out[1].data[0].a!r}): the square root is not a fixed point of the iteration")
+        except (EvalError, Raised, KeyError, IndexError, TypeError, AttributeError) as ex:
+            ctx.undecided(rule, body, None, construct=f"invariant-M=X^2/a[{lab}]", detail=f"cannot interpret the loop body on 1x1 data: {ex}")
+        finally:
+            te.OPAQUE[0] = False
+    # scaling switch
+    carry = None
+    for st in body.node.body:
+        if isinstance(st, ast.Assign) and isinstance(st.targets[0], ast.Tuple) and isinstance(st.value, ast.Name) and st.value.id == body.params()[0]:
+            carry = [t.id if isinstance(t, ast.Name) else None for t in st.targets[0].elts]
+    rets = body.returns()
+    sw = [c for c in ast.walk(body.node) if isinstance(c, ast.Call) and (dotted(c.func) or "").split(".")[-1] in ("where", "if_then_else") and len(c.args) == 3]
+    ok = False
+    shown = "?"
+    if carry and len(sw) == 1 and rets and isinstance(rets[0], ast.Tuple):
+        c = sw[0]
+        shown = src(c)
+        cond = c.args[0]
+        # the carried slot that holds the relative change: returned at the position of a quotient of two norms
+        change = None
+        for k, e in enumerate(rets[0].elts):
+            if isinstance(e, ast.Name):
+                for st in body.node.body:
+                    if isinstance(st, ast.Assign) and isinstance(st.targets[0], ast.Name) and st.targets[0].id == e.id and isinstance(st.value, ast.BinOp) \
+                            and isinstance(st.value.op, ast.Div) and "norm" in src(st.value.left) and "norm" in src(st.value.right):
+                        change = carry[k] if k < len(carry) else None
+        ok = isinstance(cond, ast.Compare) and len(cond.ops) == 1 and isinstance(cond.ops[0], (ast.GtE, ast.Gt)) and isinstance(cond.left, ast.Name) \
+            and cond.left.id == change and isinstance(c.args[1], ast.Call) and const_value(c.args[2]) == 1.0
+    ctx.decide("O4/T2-scaling-switch", ok, body, sw[0] if sw else None, construct="scaling-on-while-far-from-convergence", detail=shown,
+               bad_detail=f"`{shown}`: the determinantal scaling must be applied while the relative change of X is at least the threshold and replaced by 1 below it; "
+                          f"otherwise matrices of extreme magnitude exhaust the iteration cap (silently unconverged result) or the final quadratic phase is perturbed")
+
+
 def _custom_jvp_functions(ctx, mname):
     m = ctx.need_module(mname)
     out = []
@@ -485,6 +570,9 @@ def variants(repo):
         Variant("no derivative fallback", T, sub("        return np.where(x2 == x1, df(x1), relative_difference(x1, x2_safe))", "        return relative_difference(x1, x2_safe)"), "O3/T5-custom-jvp-wiring"),
         Variant("sqrt relative difference", T, sub("    return 1/(np.sqrt(lam1) + np.sqrt(lam2))", "    return 1/(np.sqrt(lam1) - np.sqrt(lam2))"), "O3/T7-relative-differences"),
         Variant("exp relative difference", T, sub("    return np.exp(lam2)*np.expm1(arg)/arg", "    return np.exp(lam1)*np.expm1(arg)/arg"), "O3/T7-relative-differences"),
+        Variant("DB update coefficient", "optimism/LinAlg.py", sub("        M = 0.5 * (I + 0.5 * (M + N))", "        M = 0.5 * (I + 0.25 * (M + N))"), "O4/T7-denman-beavers-invariant"),
+        Variant("DB scaling applied once to M", "optimism/LinAlg.py", sub("        M *= g * g", "        M *= g"), "O4/T7-denman-beavers-invariant"),
+        Variant("DB scaling switch flipped", "optimism/LinAlg.py", sub("        g = np.where(diff >= scaleTol,", "        g = np.where(diff <= scaleTol,"), "O4/T2-scaling-switch"),
         Variant("pade numerator digit", T, sub("2.12714890259493060", "2.12714890259493960"), "O2/T7-trigonometric-root-table"),
         Variant("pade denominator coefficient", T, sub("0.603976798217196003", "0.603976798217190003"), "O2/T7-trigonometric-root-table"),
         Variant("taylor coefficient", T, sub("    seventh2 = 2.0 / 7.0", "    seventh2 = 2.0 / 6.0"), "O3/T7-relative-differences"),
@@ -497,6 +585,8 @@ def variants(repo):
         Variant("divided difference pair mixed up", T, sub("    h31 = rd(lam[2], lam[0])", "    h31 = rd(lam[2], lam[1])"), "O3/T5-custom-jvp-wiring"),
         Variant("fallback switch with tolerance", T, sub("        return np.where(x2 == x1, df(x1), relative_difference(x1, x2_safe))", "        return np.where(np.isclose(x1, x2), df(x1), relative_difference(x1, x2_safe))"), "O3/T5-custom-jvp-wiring"),
         Variant("alpha-rename jvp helper", T, alpha_rename("_symmetric_matrix_function_jvp_helper"), None),
+        Variant("spherical threshold 1e-10", T, sub("    c2tol = (c1*c1)*(-1.0e-30)", "    c2tol = (c1*c1)*(-1.0e-10)"), "O2/T7-eigen-solver-algebra"),
+        Variant("spherical threshold 1e-32 (equivalent)", T, sub("    c2tol = (c1*c1)*(-1.0e-30)", "    c2tol = (c1*c1)*(-1.0e-32)"), None),
         Variant("spherical threshold linear in the mean", T, sub("    c2tol = (c1*c1)*(-1.0e-30)", "    c2tol = c1*(-1.0e-30)"), "O2/T7-eigen-solver-algebra"),
         Variant("spherical threshold positive", T, sub("    c2tol = (c1*c1)*(-1.0e-30)", "    c2tol = (c1*c1)*(1.0e-30)"), "O2/T7-eigen-solver-algebra"),
         Variant("shift sign can be zero", T, sub("*np.where(b >= 0.0, 1.0, -1.0)", "*np.sign(b)"), "O2/T7-eigen-solver-algebra"),
